@@ -10,6 +10,13 @@
 //         R ok <hex> | R err <Kind> + M <hex>...
 //         G n<bits> | G o<hex display> | G -                   (global `r` afterwards)
 //   numfmt <bits>...        host-side Display only:  D <bits> <hex text>
+//   numreal <item>...       like numsnips, but the Vm keeps yarel's OWN `print` native (core::print, which writes to the
+//       process's stdout); everything is therefore written straight to stdout, in order, with escaped framing:
+//         @@SNIP <i>            before each item
+//         @@D <hex display>     host-side Display of x (when bits are given)
+//         <raw lines printed by the program>
+//         @@R ok | @@R err <Kind> | @@M <hex>      result of the item
+//         @@G n<bits> | @@G -                      global `r`
 use yarel::value::Value;
 use yarel::vm;
 
@@ -41,6 +48,37 @@ fn cmd_numsnips(args: &[&str], out: &mut Vec<String>) {
     }
 }
 
+fn cmd_numreal(args: &[&str]) {
+    // no set_printer: the built-in print stays in place
+    let mut vm = vm::Vm::with_built_ins();
+    for (i, a) in args.iter().enumerate() {
+        println!("@@SNIP {}", i);
+        let mut it = a.splitn(2, ':');
+        let bits = it.next().unwrap_or("-");
+        let src = crate::unhex_str(it.next().unwrap_or("-"));
+        if bits != "-" {
+            let b: u64 = bits.parse().expect("bits");
+            let v = Value::Number(f64::from_bits(b));
+            println!("@@D {}", crate::hex(format!("{}", v).as_bytes()));
+            vm.set_global("main", "x", v);
+        }
+        vm.set_global("main", "r", Value::None);
+        match vm::interpret(&mut vm, src, None) {
+            Ok(_) => println!("@@R ok"),
+            Err(e) => {
+                println!("@@R err {}", crate::kind_name(e.kind()));
+                for m in e.messages() {
+                    println!("@@M {}", crate::hex(m.as_bytes()));
+                }
+            }
+        }
+        match vm.global("main", "r") {
+            Some(Value::Number(n)) => println!("@@G n{}", n.to_bits()),
+            _ => println!("@@G -"),
+        }
+    }
+}
+
 fn cmd_numfmt(args: &[&str], out: &mut Vec<String>) {
     for a in args {
         let b: u64 = a.parse().expect("bits");
@@ -53,6 +91,7 @@ pub fn dispatch(cmd: &str, args: &[&str], out: &mut Vec<String>) -> bool {
     match cmd {
         "numsnips" => cmd_numsnips(args, out),
         "numfmt" => cmd_numfmt(args, out),
+        "numreal" => cmd_numreal(args),
         _ => return false,
     }
     true
